@@ -45,7 +45,7 @@ class Gaussian(_ProbabilisticModel):
         D = self.mean.shape[-1]
         difference = y - self.mean[..., None, :]
         white_x = np.einsum(
-            '...dD,...nD->...nd',
+            '...Dd,...nD->...nd',
             self.precision_cholesky,
             difference
         )
